@@ -126,6 +126,14 @@ def deviation(case, res):
     """None if the native outcome conforms to the reference, else a description"""
     if "panic" in res or "crash" in res:
         return "panic/crash: %s" % str(res)[:200]
+    if case.get("abs_under_root"):
+        reps = res.get("replies", [])
+        if not reps or not reps[0].startswith("Error"):
+            return "an ABSOLUTE path (under the served root) was not refused: %s" % (reps[:1],)
+        after = dict(res.get("tree_after", {}))
+        if after != case.get("tree"):
+            return "an absolute path changed the tree: %s" % sorted(after)
+        return None
     if case.get("in_step_only"):
         if res.get("ok") and res.get("replies") and res.get("consumed") != len(bytes.fromhex(case.get("content", ""))):
             return "the hub replied %s but consumed %s of the %d content bytes: the next bytes on the stream would be parsed as requests" % (
@@ -200,6 +208,10 @@ def scenarios():
     # a legal 250-byte name whose `.copia-tmp` sibling exceeds NAME_MAX: staging cannot be created. Whatever the hub does
     # (I/O error ending the session, or an error reply), it must not leave content bytes unread behind an error REPLY
     out.append({"fn": "hub_step", "tree": tree, "op": "put", "path": "x" * 250, "expected": None, "content": hx(b"abcdef"), "hash": "CONTENT", "in_step_only": True})
+    # an ABSOLUTE path that happens to lie under the served root is still absolute: refused
+    for op in ("put", "get", "delete"):
+        out.append({"fn": "hub_step", "tree": tree, "op": op, "path": "@ROOT@/planted/x", "expected": None, "content": hx(b"abc"), "hash": "CONTENT", "abs_under_root": True})
+        out.append({"fn": "hub_step", "tree": tree, "op": op, "path": "@ROOT@/a.txt", "expected": "CURRENT", "content": hx(b"abc"), "hash": "CONTENT", "abs_under_root": True})
     # a name that is an existing DIRECTORY on the hub: whatever is replied must be true of the tree afterwards
     for e in (None, "STALE"):
         out.append({"fn": "hub_step", "tree": tree, "op": "put", "path": "d", "expected": e, "content": hx(b"abc"), "hash": "CONTENT", "truthful": True})
@@ -332,7 +344,9 @@ def _lname(p, live):
 
 def required_order(what, trace):
     """the order the obligations demand of the real system calls; returns a description of the first breach or None"""
-    ops = [(k, t) for k, t, rc in trace]
+    ops = [(k, t) if not (k == "stat" and rc == "0") else ("stat-ok", t) for k, t, rc in trace]
+    # ("stat", live) from here on means a stat that FAILED (the path does not exist): only then does a stat count as
+    # "the current content was read"; an existing file must be opened and hashed inside the critical section
 
     def idx(pred, start=0):
         for i in range(start, len(ops)):
